@@ -134,6 +134,9 @@ def layout_pass(p, channels, frames, fpb, xyz, odd=False):
         names[(frames + p) % channels] = '    '
         names[(frames + p + 1) % channels] = 'a1b '
     extra = {}
+    if odd and (channels + frames + p) % 5 == 1:
+        # the two bytes after the channel count are not always null in the field; the reader mentions it and reads on
+        extra['null'] = [0x0001, 0x0080, 0xFFFF][(frames + p) % 3]
     if odd and (channels + 2 * frames + p) % 7 == 3:
         # a description in Latin-1 (a field name with a letter above 0x7f): free text, the reader does not interpret it
         extra['description'] = b'TROLL \xd8ST 31/2-A \xb0C'.ljust(72).hex()
